@@ -207,6 +207,8 @@ func c12(r *core.Run) {
 	n := txnRule(r, "T1", rel)
 	r.Analysed["txn_write_sites"] = n
 	c12InitAnnounce(r, "I2", rel)
+	r.Rule("I3", "all-or-nothing seeding: in the function Init hands to the user's callback every return that did not collect the entry has recorded a non-nil error in the variable that the transaction body returns after the callback (or found one recorded already), and the transaction body returns that variable when it is non-nil before it writes anything; an invalid seed that is merely skipped lets Init commit the marker over a partial seed set", 2)
+	c12InitAllOrNothing(r, "I3", rel)
 
 	// ---- T2 --------------------------------------------------------------
 	for _, name := range []string{"Create", "Update", "Delete"} {
@@ -491,6 +493,7 @@ func c13(r *core.Run) {
 	r.Rule("D1", "iteration direction: when the iterator options' Reverse can be true, the key passed to Seek is not the very value passed to ValidForPrefix", 1)
 	r.Rule("B1", "before-values are the stored values (shared with C11.K2): the value cached in a store transaction is dead or refreshed by every mutation; index deltas are computed from the before-value a mutation reports, so a stale one deletes the wrong entry and orphans the right one", 1)
 	r.Rule("W1", "window guards: limit==0 returns an empty result before the database is touched; a negative limit is replaced by max-int", 2)
+	r.Rule("K6", "every index is maintained: inside a loop over the query store's indexes (index maintenance, rebuild) nothing returns success - a `return nil` in place of `continue` ends the transaction body after the first index whose key is unchanged, and the remaining indexes (map order) keep stale entries", 1)
 	r.Rule("W2", "filter first, then the window: in the index scan the offset and the limit are counted down, and an id is appended, only for an entry the key filter accepted (typestate reset by every iterator step); entries the filter rejects must not consume offset or limit", 3)
 	r.Rule("K5", "the index only learns of values that are stored (shared with C12.I2): the index is maintained from the store's change notifications, and Init announces as created only the seeds it actually wrote (every insertion into the announced collection follows a database write); announcing a skipped seed leaves a phantom index entry", 1)
 	r.Rule("K4", "keys handed to a transaction are not written again: BadgerDB keeps the key slice of a pending Set / Delete until commit, so a []byte passed as key to a transaction write is never afterwards passed to a parameter through which the callee may write (a key builder reusing one scratch buffer for the delete key and the set key turns the pending delete into a delete of the new key)", 2)
@@ -574,6 +577,7 @@ func c13(r *core.Run) {
 	r.Check(nameLenOK, "K1", core.FuncName(fc), "reader-strips-len(name)+1", p.Pos(fc.Pos()), "filter keys start after name and ':'", "the reader does not strip exactly len(name)+1 bytes before the key")
 
 	c11CacheCoherence(r, "B1", rel)
+	c13AllIndexes(r, "K6", rel)
 	// K2 / Q1 in querystore
 	ui, hc := iro.updateIndex, iro.handleChange
 	if ui == nil || hc == nil {
@@ -805,12 +809,22 @@ func c13WindowAfterFilter(r *core.Run, rule string, fc *ssa.Function) {
 	p := r.P
 	nFilter, nOps := 0, 0
 	for _, f2 := range withAnon(fc) {
+		// the filter value: the query's FilterKeys field, a copy of it, or the parameter of a
+		// private helper that every caller hands such a value
+		isFilter := func(v ssa.Value) bool {
+			for _, a := range paramArgs(p, v, 0) {
+				if !derivesFromField(a, "IndexQuery", "FilterKeys") {
+					return false
+				}
+			}
+			return true
+		}
 		isFilterCall := func(v ssa.Value) bool {
 			c, ok := v.(*ssa.Call)
-			return ok && core.IsDynamic(c) && !c.Common().IsInvoke() && derivesFromField(c.Common().Value, "IndexQuery", "FilterKeys")
+			return ok && core.IsDynamic(c) && !c.Common().IsInvoke() && isFilter(c.Common().Value)
 		}
 		has := false
-		for _, c := range core.Calls(f2) {
+		for _, c := range helperCalls(p, f2) {
 			if v, ok := c.(*ssa.Call); ok && isFilterCall(v) {
 				has = true
 				nFilter++
@@ -819,7 +833,7 @@ func c13WindowAfterFilter(r *core.Run, rule string, fc *ssa.Function) {
 		if !has {
 			continue
 		}
-		fl := &core.Flow{Fn: f2, Entry: core.StateSet(0).Add(0)}
+		fl := &core.Flow{Fn: f2, Entry: core.StateSet(0).Add(0), Tags: true, Inline: func(cal *ssa.Function) bool { return p.IsPrivateHelper(cal) && cal.Pkg == f2.Pkg }}
 		fl.Transfer = func(in ssa.Instruction, st int) core.StateSet {
 			if c, ok := in.(ssa.CallInstruction); ok {
 				if cal := c.Common().StaticCallee(); cal != nil && cal.Signature.Recv() != nil && core.TypeName(cal.Signature.Recv().Type()) == "Iterator" {
@@ -851,7 +865,7 @@ func c13WindowAfterFilter(r *core.Run, rule string, fc *ssa.Function) {
 				if c, isC := x.(*ssa.Const); isC && c.IsNil() {
 					x, y = y, x
 				}
-				if c, isC := y.(*ssa.Const); isC && c.IsNil() && derivesFromField(x, "IndexQuery", "FilterKeys") {
+				if c, isC := y.(*ssa.Const); isC && c.IsNil() && isFilter(x) {
 					isNil := (bo.Op == token.EQL) == (sc == 0)
 					if isNil {
 						return 1, true
@@ -989,6 +1003,7 @@ func c14(r *core.Run) {
 	r.Rule("O1", "mutation order per id: index maintenance - which applies one id's key deltas and runs the query-change callbacks - is executed only as a task handed to the blocking FIFO TaskQueue.Do by the store's change handler (no direct call, TryDo fallback or goroutine that could let a later delta overtake an earlier one)", 1)
 	r.Rule("N3", "query handler: a reset flag yields a reset event (resources) or a fresh result reply (query requests) and no per-event dispatch; both event dispatchers handle the same event names; errors are returned / replied", 3)
 
+	r.Rule("V1", "every query request gets its own answer (shared with C15.C1 / C16.V1): no closure created in a loop and handed to the per-group queue captures a variable the loop re-assigns (the module's go directive gives loop variables one instance per loop); the listener of a query event would otherwise hand every pending request's closure the latest message", 1)
 	r.Rule("N4", "no query change without a mutation (shared with C12.I2): Init announces as created only the seeds it wrote; a seed skipped because its id already holds a value would otherwise run the query-change callbacks for a value that was never stored, index it next to the real one and report queries on the phantom key as affected", 1)
 
 	ui := resolveIdxRoles(p, rel).updateIndex
@@ -999,6 +1014,7 @@ func c14(r *core.Run) {
 	}
 	c11CacheCoherence(r, "B1", rel)
 	c12InitAnnounce(r, "N4", rel)
+	loopCaptureRule(r, "V1", "two query requests of one query event that are queued before the first runs are both handled with the later message: one client holding a query result gets two answers, the other none and keeps a stale result")
 	queuedTaskRule(r, "O1", ui, "deltas and notifications of one id are applied in mutation order by the single FIFO worker", "index maintenance / query-change notification can run outside the FIFO task queue: a later mutation's delta and callbacks can overtake an earlier one of the same id (subscribers end with a stale result, the index keeps or loses entries)")
 	// N1
 	var upd ssa.CallInstruction
@@ -2289,4 +2305,248 @@ func c12InitUnit(r *core.Run, cl *ssa.Function, rel string) bool {
 	}
 	r.Check(skipOK && n > 0, "I1", fname, "existing-ids-skipped", p.Pos(cl.Pos()), "a seed is written only when reading its key failed (not found)", "seeds overwrite existing values")
 	return true
+}
+
+// c12InitAllOrNothing: see rule I3.
+func c12InitAllOrNothing(r *core.Run, rule, rel string) {
+	p := r.P
+	init := methodNamed(p, rel, "Store", "Init")
+	if init == nil {
+		r.Unres(rule, "Store.Init", "missing")
+		return
+	}
+	// the adder: a closure nested in Init that is passed as the argument of a dynamic call (the
+	// user's callback)
+	var adder, body *ssa.Function
+	var cbCall ssa.CallInstruction
+	for _, f2 := range withAnon(init) {
+		for _, c := range core.Calls(f2) {
+			if !core.IsDynamic(c) || c.Common().IsInvoke() {
+				continue
+			}
+			for _, a := range c.Common().Args {
+				if mc, ok := core.Strip(a).(*ssa.MakeClosure); ok {
+					if fn, ok := mc.Fn.(*ssa.Function); ok && core.Outermost(fn) == init {
+						adder, body, cbCall = fn, f2, c
+					}
+				} else if u, ok := core.Strip(a).(*ssa.UnOp); ok && u.Op == token.MUL {
+					// add := func..; cb(add): the closure value sits in a local cell
+					if al, ok := u.X.(*ssa.Alloc); ok && al.Referrers() != nil {
+						for _, rf := range *al.Referrers() {
+							if st, ok := rf.(*ssa.Store); ok {
+								if mc, ok := core.Strip(st.Val).(*ssa.MakeClosure); ok {
+									if fn, ok := mc.Fn.(*ssa.Function); ok {
+										adder, body, cbCall = fn, f2, c
+									}
+								}
+							}
+						}
+					}
+				}
+			}
+		}
+	}
+	if adder == nil {
+		r.Unres(rule, "Init.<adder>", "no closure of Init is handed to a dynamic call")
+		return
+	}
+	// error cells shared between the adder and the transaction body
+	isErrCell := func(v ssa.Value) (ssa.Value, bool) {
+		if fv, ok := v.(*ssa.FreeVar); ok {
+			v = core.BindingOf(fv)
+		}
+		al, ok := v.(*ssa.Alloc)
+		if !ok {
+			return nil, false
+		}
+		pt, ok := al.Type().(*types.Pointer)
+		return al, ok && types.TypeString(pt.Elem(), nil) == "error"
+	}
+	const (
+		none = iota
+		collected
+		failed
+	)
+	stored := map[ssa.Value]bool{} // values stored into a shared error cell in the adder
+	for _, b := range adder.Blocks {
+		for _, in := range b.Instrs {
+			if st, ok := in.(*ssa.Store); ok {
+				if fv, isFV := st.Addr.(*ssa.FreeVar); isFV {
+					if _, ok := isErrCell(fv); ok {
+						stored[st.Val] = true
+					}
+				}
+			}
+		}
+	}
+	nonNilValue := func(v ssa.Value) bool {
+		switch x := v.(type) {
+		case *ssa.Call:
+			n := core.CalleeName(x)
+			return n == "fmt.Errorf" || n == "errors.New"
+		case *ssa.MakeInterface:
+			return true
+		}
+		return false
+	}
+	fl := &core.Flow{Fn: adder, Entry: core.StateSet(0).Add(none)}
+	fl.Transfer = func(in ssa.Instruction, st int) core.StateSet {
+		switch x := in.(type) {
+		case *ssa.MapUpdate:
+			return core.StateSet(0).Add(collected)
+		case *ssa.Store:
+			if fv, isFV := x.Addr.(*ssa.FreeVar); isFV {
+				if _, ok := isErrCell(fv); ok && nonNilValue(x.Val) {
+					return core.StateSet(0).Add(failed)
+				}
+			}
+		}
+		return core.StateSet(0).Add(st)
+	}
+	fl.Branch = func(iff *ssa.If, succ int, st int) (int, bool) {
+		cnd, sc := iff.Cond, succ
+		for {
+			u, ok := cnd.(*ssa.UnOp)
+			if !ok || u.Op != token.NOT {
+				break
+			}
+			cnd, sc = u.X, 1-sc
+		}
+		bo, ok := cnd.(*ssa.BinOp)
+		if !ok || (bo.Op != token.NEQ && bo.Op != token.EQL) {
+			return st, true
+		}
+		x, y := bo.X, bo.Y
+		if c, isC := x.(*ssa.Const); isC && c.IsNil() {
+			x, y = y, x
+		}
+		if c, isC := y.(*ssa.Const); !isC || !c.IsNil() {
+			return st, true
+		}
+		shared := stored[x]
+		if u, isU := x.(*ssa.UnOp); isU && u.Op == token.MUL {
+			if _, ok := isErrCell(u.X); ok {
+				shared = true
+			}
+		}
+		if shared && (bo.Op == token.NEQ) == (sc == 0) {
+			return failed, true // the shared error variable is non-nil on this edge
+		}
+		return st, true
+	}
+	res := fl.Run()
+	for _, ret := range core.Returns(adder) {
+		if adder.Recover != nil && ret.Block() == adder.Recover {
+			continue
+		}
+		var conds []string
+		for _, ed := range dominatingEdges(ret) {
+			conds = append(conds, describeCond(ed))
+		}
+		st := res.Before[ret]
+		r.Check(!st.Has(none), rule, core.FuncName(adder), "entry-collected-or-error-recorded:"+returnDesc(ret, conds), p.InstrPos(ret), "the entry was collected, or a non-nil error was recorded for the transaction body", "the function handed to the init callback can return without having collected the entry and without having recorded an error where the transaction body looks for it: the invalid seed is silently dropped, Init writes the others and the marker and reports success - the store stays half-seeded over all restarts")
+	}
+	// the transaction body returns the shared error before writing
+	mayWrite := mayExec(p.FuncsOfPkg(rel), func(in ssa.Instruction) bool {
+		c, ok := in.(ssa.CallInstruction)
+		return ok && isTxnWrite(c)
+	})
+	checked := false
+	for _, b := range body.Blocks {
+		iff, ok := b.Instrs[len(b.Instrs)-1].(*ssa.If)
+		if !ok {
+			continue
+		}
+		bo, ok := iff.Cond.(*ssa.BinOp)
+		if !ok || bo.Op != token.NEQ {
+			continue
+		}
+		u, ok := bo.X.(*ssa.UnOp)
+		if !ok || u.Op != token.MUL {
+			continue
+		}
+		if _, ok := isErrCell(u.X); !ok {
+			continue
+		}
+		tb := b.Succs[0]
+		if ret, ok := tb.Instrs[len(tb.Instrs)-1].(*ssa.Return); ok && len(ret.Results) > 0 && core.Reaches(cbCall, iff) {
+			good := true
+			for _, c := range core.Calls(body) {
+				cal := c.Common().StaticCallee()
+				if (isTxnWrite(c) || (cal != nil && mayWrite[cal])) && !core.Dominates(iff, c) {
+					good = false
+				}
+			}
+			if good {
+				checked = true
+			}
+		}
+	}
+	r.Check(checked, rule, core.FuncName(body), "recorded-error-returned-before-any-write", p.InstrPos(cbCall), "after the callback the transaction body returns the recorded error, before any write", "the transaction body does not return the error recorded by the adder before it starts writing")
+}
+
+// c13AllIndexes: see rule K6. Loops are found as map ranges over a field of
+// the query store whose elements are indexes.
+func c13AllIndexes(r *core.Run, rule, rel string) {
+	p := r.P
+	n := 0
+	for _, fn := range p.FuncsOfPkg(rel) {
+		for _, b := range fn.Blocks {
+			for _, in := range b.Instrs {
+				rg, ok := in.(*ssa.Range)
+				if !ok {
+					continue
+				}
+				mt, ok := rg.X.Type().Underlying().(*types.Map)
+				if !ok || core.TypeName(mt.Elem()) != qual(rel, "Index") && core.TypeName(mt.Elem()) != "Index" {
+					continue
+				}
+				f, ok := core.LoadedField(rg.X)
+				if !ok || !strings.HasSuffix(f.Struct, "QueryStore") {
+					continue
+				}
+				// the loop body: the true successor of the test on next's ok
+				var body *ssa.BasicBlock
+				if rg.Referrers() != nil {
+					for _, rf := range *rg.Referrers() {
+						nx, ok := rf.(*ssa.Next)
+						if !ok || nx.Referrers() == nil {
+							continue
+						}
+						for _, r2 := range *nx.Referrers() {
+							if ex, ok := r2.(*ssa.Extract); ok && ex.Index == 0 && ex.Referrers() != nil {
+								for _, r3 := range *ex.Referrers() {
+									if iff, ok := r3.(*ssa.If); ok {
+										body = iff.Block().Succs[0]
+									}
+								}
+							}
+						}
+					}
+				}
+				if body == nil {
+					continue
+				}
+				n++
+				bad := ""
+				for _, ret := range core.Returns(fn) {
+					if !body.Dominates(ret.Block()) {
+						continue
+					}
+					if len(ret.Results) == 0 {
+						bad = p.InstrPos(ret)
+						continue
+					}
+					last := ret.Results[len(ret.Results)-1]
+					if c, isC := last.(*ssa.Const); isC && c.IsNil() && types.TypeString(last.Type(), nil) == "error" {
+						bad = p.InstrPos(ret)
+					}
+				}
+				r.Check(bad == "", rule, core.FuncName(fn), "no-success-return-inside-the-index-loop", p.InstrPos(rg), "the loop over the indexes is left early only with an error", "the loop over the store's indexes returns success from inside its body (at "+bad+"): the indexes not yet visited - which ones depends on map order - are not maintained for this change and keep stale entries (or miss the new one)")
+			}
+		}
+	}
+	if n == 0 {
+		r.Bad(rule, "QueryStore", "index-loops-found", "-", "no loop over the query store's indexes found (rule went vacuous)")
+	}
 }
